@@ -296,3 +296,19 @@ Definition parse (s : str) : option json :=
   | Some (v, r) => match skip_ws r with [] => Some v | _ => None end
   | None => None
   end.
+
+(** * Trees the round trip is stated for: strings are Unicode scalar values
+    (no surrogate code points, below 0x110000), numbers are integers. *)
+Definition scalar (c : N) : bool := (c <? 1114112) && negb (is_surrogate c).
+
+Fixpoint wf (j : json) : bool :=
+  match j with
+  | JNull | JBool _ => true
+  | JNum (JInt _ _) => true
+  | JNum (JOther _) => false
+  | JStr s => forallb scalar s
+  | JArr xs => (fix go (l : list json) : bool := match l with [] => true | x :: r => wf x && go r end) xs
+  | JObj kvs =>
+      (fix go (l : list (str * json)) : bool :=
+         match l with [] => true | (k, v) :: r => forallb scalar k && wf v && go r end) kvs
+  end.
